@@ -173,9 +173,11 @@ func raceChild(engine string, cases []string) (pairs, marks []string, bad string
 	go func() { done <- cmd.Wait() }()
 	select {
 	case <-done:
-	case <-time.After(8 * time.Second):
+	case <-time.After(60*time.Second + time.Duration(len(cases))*time.Second):
+		// the child's own cases carry watchdogs (a blocked operation is reported there, and by the main run of the
+		// same cases without -race); a child that is merely slow on a loaded machine is not a finding
 		cmd.Process.Kill()
-		return nil, nil, "BLOCKED\t!stress under the race detector did not finish"
+		return nil, nil, "race-child-timeout"
 	}
 	obs, _ := os.ReadFile(obsFile)
 	for i, l := range strings.Split(string(obs), "\n") {
